@@ -296,6 +296,30 @@ def m3c(ctx):
     # cartesian itself: exhaustive odometer (report as information; its own unit test pins the count)
     cf = crate.free_fn("cartesian")
     ctx.info("cartesian() bodies: %d" % len(cf))
+    # a product enumeration has to DECOUPLE its positions: an odometer (some index is reset to 0 while another one is stepped),
+    # a quotient chain (position i reads k / stride_i), or one nesting level per input (recursion / flat_map).  If every
+    # position is a function of the same counter alone (`v[k % v.len()]`), only "diagonal" tuples come out although their
+    # number is right.  (A necessary condition read off the code's shape; that the enumeration is complete is not decided.)
+    for f_ in cf:
+        bodies_ = f_.all_bodies()
+        has_reset = False
+        has_step = False
+        has_div = False
+        for sub in bodies_:
+            for bi, si, st_ in sub.statements():
+                if st_["k"] != "assign":
+                    continue
+                rv = st_["rv"]
+                idx_store = any(isinstance(p_, dict) and ("idx" in p_ or "cidx" in p_) for p_ in st_["lhs"]["p"]) or "*" in st_["lhs"]["p"]
+                if rv["k"] == "use" and rv["op"]["k"] == "const" and str(rv["op"].get("int")) == "0" and idx_store:
+                    has_reset = True
+                if rv["k"] == "bin" and rv.get("op") in ("Div",):
+                    has_div = True
+                if rv["k"] == "bin" and rv.get("op") in ("AddWithOverflow", "Add"):
+                    has_step = True
+        nested = any(c.callee and (c.callee.target == f_.id or c.callee.name in ("flat_map", "fold")) for sub in bodies_ for c in sub.calls)
+        ctx.check((has_reset and has_step) or has_div or nested, "product-positions-decoupled:" + C.fkey(f_), "cartesian() decouples the positions of the tuples it yields (odometer with carry / quotient chain / nesting)",
+                  "cartesian() derives every position of a tuple from the same counter without a carry, a quotient or nesting: it yields the right NUMBER of tuples but not all combinations, so group-compatible variants that permute only some of the children are never enumerated — strong shapes of equal nodes differ and represented instances are not matched", where_of(f_))
 
 
 RULES = [m1, m2, m3, m3b, m3c]
@@ -391,3 +415,11 @@ def m6(ctx):
 
 
 RULES.append(m6)
+
+
+@rule("MC", doc="must-call census: no function of this property's files has gained an early exit in front of work it always did (every crate-local call that lay on all paths to a normal return in the reviewed tree still does)")
+def mc(ctx):
+    C.must_call_census(ctx, ctx.lib(), ['src/rewrite/ematch.rs', 'src/rewrite/mod.rs', 'src/rewrite/pattern.rs', 'src/egraph/mod.rs'])
+
+
+RULES.append(mc)
